@@ -661,6 +661,8 @@ func (e *ssaEval) instr(fr *frame, ins ssa.Instruction) {
 		if !looked {
 			if r, ok := e.roLookup(x, i); ok { // a read-only table with constant entries (ext_x3.go)
 				set(x, r)
+			} else if r, ok := e.funcTableLookupY5(x, i); ok { // a read-only table of functions (ext_y5.go)
+				set(x, r)
 			}
 		}
 	case *ssa.Slice:
